@@ -59,6 +59,28 @@ PropC02(e) == e.ev \in {"rt", "enc"} =>
 \* that message and its bytes must be the bytes the specification computed for it
 PropExpect(e) == "want" \in DOMAIN e => RecOfData(e.msg) = e.want /\ e.bytes = e.expect
 
+\* C02, every value: interval summaries of the factories + encoders over all values of the narrow formats.
+\* On an interval the code accepted every value, wrote the header `hdr`, and the payload read as an unsigned
+\* big-endian number was value + d; TLC checks that against its own definitions for every value of the interval.
+NumOfInt(v) == [neg |-> v < 0, mag |-> OfSmall(IF v < 0 THEN -v ELSE v)]
+RECURSIVE BEVal(_, _)
+BEVal(bs, acc) == IF bs = <<>> THEN acc ELSE BEVal(Tail(bs), acc * 256 + Head(bs))
+ValInDomain(f, v) == CASE f = "B" -> v \in 0..255 [] f = "A" -> v \in 0..127
+                       [] f \in {"I1", "I2"} -> InSigned(NumOfInt(v), 8 * Width(CodeOf(f)))
+                       [] OTHER -> InUnsigned(NumOfInt(v), 8 * Width(CodeOf(f)))
+ValPayload(f, v) == IF f \in {"B", "A"} THEN <<v>> ELSE IntBytes(NumOfInt(v), Width(CodeOf(f)))
+PropVal(e) ==
+  /\ e.ev = "valivl" =>
+       (\A v \in e.a..e.b :
+           /\ e.accepted = ValInDomain(e.f, v)
+           /\ (~e.accepted \/ (e.hdr = ItemHeader(CodeOf(e.f), 1) /\ BEVal(ValPayload(e.f, v), 0) = v + e.d)))
+  \* every F4 bit pattern (as two 16-bit halves): accepted iff finite, payload = the pattern; finiteness depends on the high half only
+  /\ e.ev = "f4ivl" =>
+       (/\ e.same
+        /\ (e.first => (e.ahi = 0 /\ e.alo = 0)) /\ (e.last => (e.bhi = 65535 /\ e.blo = 65535))
+        /\ (e.alo = 0 /\ e.blo = 65535)                                  \* the class changes only between high halves
+        /\ \A hi \in e.ahi..e.bhi : e.accepted = FiniteF4(<<hi \div 256, hi % 256, 0, 0>>))
+
 \* ------------------------------------------------------------------ C03: accepted iff well-formed, decoded exactly
 PropC03(e) == e.ev \in {"rt", "dec"} =>
    LET r == DecMsg(e.bytes) IN
@@ -181,6 +203,7 @@ InvC13 == l > 0 => PropC13(E)
 InvAgreeDecoder == l > 0 => AgreeDecoder(E)
 InvC07 == l > 0 => PropC07(E)
 InvC14 == l > 0 => PropC14(E)
+InvVal == l > 0 => PropVal(E)
 InvHdr == l > 0 => PropHdr(E)
 InvBig == l > 0 => PropBig(E)
 =====================================================================
